@@ -7,7 +7,7 @@ from .lin import Lin, Infeasible
 from .avals import *   # noqa
 from .avals import value_tags
 from . import seqops
-from .signals import Raised, Returned, Abandon
+from .signals import Raised, Returned, Abandon, BreakSig, ContinueSig, ConsumerSignal
 
 
 class ExprMixin:
@@ -182,6 +182,33 @@ class ExprMixin:
         if repr(a) == repr(b):
             return a
         return SymV(self.fresh('join'), 'any')
+
+    def ex_Yield(self, node):
+        v = self.eval(node.value) if node.value is not None else ConstV(None)
+        cons = getattr(self, 'consumers', None)
+        if not cons:
+            self.note_unknown(node, 'yield without an active consuming loop')
+            return ConstV(None)
+        c = cons[-1]
+        self.event('yield', node, value=v, consumer=c['node'])
+        # run the consuming loop body in the consumer's frame
+        saved_frames, saved_stack = self.frames, self.stack
+        self.frames = saved_frames[:c['depth']]
+        self.stack = c['stack']
+        cons.pop()
+        try:
+            try:
+                self.assign(c['node'].target, v, c['node'])
+                self.exec_block(c['node'].body)
+            except ContinueSig:
+                pass
+            except (BreakSig, Returned, Raised) as sig:
+                raise ConsumerSignal(sig)
+        finally:
+            cons.append(c)
+            self.frames = saved_frames
+            self.stack = saved_stack
+        return ConstV(None)
 
     def ex_NamedExpr(self, node):
         v = self.eval(node.value)
@@ -553,7 +580,11 @@ class ExprMixin:
             if a.items is not None and b.items is not None:
                 return ListV(items=a.items + b.items)
             ln = (a.len + b.len) if a.len is not None and b.len is not None else None
-            return ListV(items=None, elem=a.elem or b.elem, length=ln)
+            r = ListV(items=None, elem=b.elem if a.items is not None else (a.elem or b.elem), length=ln)
+            if a.items is not None:
+                r.parts = [('items', list(a.items)), ('extend', b, b.len)]
+                r.prev_items = list(a.items)
+            return r
         if isinstance(op, ast.Add) and isinstance(a, TupleV) and isinstance(b, TupleV):
             return TupleV(a.items + b.items)
         if isinstance(op, ast.Mod) and isinstance(a, SeqV):
@@ -706,6 +737,16 @@ class ExprMixin:
             if name == 'args':
                 return TupleV(obj.args)
             return SymV(self.fresh(f'exc.{name}'), 'any')
+        from . import ext as _ext
+        if isinstance(obj, TupleV) and name in getattr(obj, 'names', ()):
+            return obj.items[obj.names.index(name)]
+        if isinstance(obj, _ext.StructV):
+            if name == 'size':
+                import struct as _st
+                return IntV(_st.calcsize(obj.fmt.lit_value()))
+            if name == 'format':
+                return obj.fmt
+            return BoundExt(obj, name)
         if isinstance(obj, (SeqV, ListV, DictV, TupleV, FileV, IntV, PyLit, IterV, SymV, ConstV, RangeV, UnkV, SliceV)):
             if isinstance(obj, SliceV) and name in ('start', 'stop'):
                 v = obj.lo if name == 'start' else obj.hi
@@ -811,6 +852,18 @@ class ExprMixin:
             k = self.py_key(key)
             if isinstance(k, int) and -len(obj.items) <= k < len(obj.items):
                 return obj.items[k]
+            l = self.as_lin(key)
+            if l is not None and obj.items:
+                n = len(obj.items)
+                if not (self.store.prove_ge0(l + n) and self.store.prove_ge0(Lin.const(n - 1) - l)):
+                    self.may_raise(IndexError, node, f'tuple index {l} (len {n})', wire='wire' in value_tags(key))
+                lins = [self.as_lin(x) for x in obj.items]
+                if all(x is not None and self.store.canon(x).is_const() for x in lins):
+                    vals = [self.store.canon(x).c for x in lins]
+                    sname = self.fresh('t')
+                    self.store.declare(sname, min(vals), max(vals), info='element of a constant tuple')
+                    return IntV(Lin.sym(sname))
+                return self.join_many(obj.items)
         if isinstance(obj, ListV):
             l = self.as_lin(key)
             if l is not None:
